@@ -164,7 +164,16 @@ func runC05(c *Ctx) {
 				continue
 			}
 			m++
-			newFin := IsResult("(*consensus/liskbft.API).GetBFTHeights", 1)
+			// the new finalized height: the precommitted height, or whatever value is handed to
+			// AddBlock as the finalized height (max(stored, precommitted))
+			preC := IsResult("(*consensus/liskbft.API).GetBFTHeights", 1)
+			argStr := ""
+			for _, s := range CallsIn(procV, "(*blockchain.Chain).AddBlock") {
+				if a := s.Call.Common().Args; len(a) >= 5 {
+					argStr = pf.Term(a[4]).String()
+				}
+			}
+			newFin := Matcher{"new finalized height", func(t *Term) bool { return preC.Match(t) || (argStr != "" && t.String() == argStr) }}
 			ok1, ok2 := false, false
 			for _, f := range pf.FactsAt(op.Call.Block()) {
 				if f.IsCmp && f.Op.String() == "<" && strings.Contains(f.L.String(), "bytes.ToUint32") && newFin.Match(f.R) {
